@@ -264,6 +264,11 @@ func (m *c24Monitor) observe(st *stepRec, e *events) {
 			if ms, ok := t.Msg.(*nodesTypes.MsgSend); ok && posview.Hex(ms.ToAddress) == out {
 				unclean[out] = true
 			}
+			// another node staked in this very block with the same output address may be released and paid out in the same
+			// EndBlock (unstaking time 0): its stake never shows in a snapshot
+			if ms, ok := t.Msg.(*nodesTypes.MsgStake); ok && t.Code == 0 && ms.Output != nil && posview.Hex(ms.Output) == out {
+				unclean[out] = true
+			}
 		}
 		if unclean[out] {
 			c.Label("payout-not-isolated")
